@@ -10,6 +10,7 @@ satisfied by every file laid out as the creator does (`ManifestLayout.of_concat`
 import JubakoModel.Lemmas.Rewrite
 import JubakoModel.Lemmas.SetLocation
 import JubakoModel.Lemmas.FuncsCheck
+import JubakoModel.Lemmas.FuncsLookup
 
 set_option maxRecDepth 8000
 
@@ -83,5 +84,15 @@ theorem c12_check_stream_is_source_stream (packOff n pos : Nat) (src : Bytes) (r
       (let r := Generated.checkStreamStep packInfoBlockSize packOff (packOff + n * packInfoBlockSize) pos req
        (if r.2 then zeros (src.take r.1).length else src.take r.1, src.drop r.1)) :=
   gen_checkStreamRead packOff n pos src req
+
+/-- **The offsets of the pack infos are the source's**: `PackOffsetsIter::new` / `next`
+    (`reader/manifest_pack.rs`, used by `ManifestPack::new` and by `tools::set_location`), translated on every
+    run and run until exhaustion, enumerate exactly `packInfosOffset checkInfoPos count + k * 256`, `k < count` —
+    the offsets the model reads the pack infos at and rewrites a location at. -/
+theorem c12_pack_info_offsets_are_source_offsets (cip count : Nat) :
+    drainOffsets packInfoBlockSize (count + 1) (Generated.packOffsetsNew packInfoBlockSize cip count).1
+        (Generated.packOffsetsNew packInfoBlockSize cip count).2 =
+      (List.range count).map (fun k => packInfosOffset cip count + k * packInfoBlockSize) :=
+  gen_packOffsets cip count
 
 end Jubako
